@@ -45,6 +45,8 @@ FIXED = [
  ("F40", "C17", "47acbfa", "follow-up of F39: a failure while zeroing a preallocation in the middle of populating the mappings of one multi-cluster write returned before the L2 slice was marked dirty, so the mappings already made were never flushed", "regress/C17/prealloc-partial-mapping-not-dirty.json"),
  ("F41", "C20", "ff62ca5", "Qcow2Dev::check() / rqcow2 check took the host cluster after a compressed cluster that ends exactly on a cluster boundary as referenced, so a leaked cluster there was accepted", "regress/C20/check-misses-leak-after-boundary-compressed.json"),
  ("F42", "C04", "f310ed5", "two parts of one multi-cluster copy-on-write write (or a writer and flush_meta) flushed refcounts concurrently: the second caller of flush_refcount() found the dirty flags already cleared by the first, returned before the refcount block was written and synced, and wrote its L2 slice; a crash kept the mapping with refcount 0", "regress/C04/concurrent-refcount-flush-skipped.json"),
+ ("F43", "C04", "246b458", "flush_meta() running concurrently with an allocating write wrote an L2 slice (or the L1 block pointing to a new L2 table) containing a mapping made after its refcount phase: crash image with a mapping whose cluster has refcount 0 (found by the concurrent-history crash domain added after seeded change R3-C05)", "regress/C04/concurrent-flush-mapping-before-refcount.json"),
+ ("F44", "C05", "246b458", "same commit: the L2 slice written by a concurrent flush_meta() mapped a new data cluster whose zeroing was not durable yet (completed after the flush's sync was submitted): a block synced as zero read the stale content of the cluster's previous use after a crash", "regress/C05/concurrent-flush-mapping-before-zeroing-synced.json"),
  ("F11", "C03", "c069255", "writing to a zero-flagged cluster with a preallocation leaked the preallocated host cluster", "regress/C03/zero-prealloc-write-leaks.json"),
 ]
 KNOWN = [
